@@ -1,5 +1,6 @@
 import ArgMapper.Model.Convert
 import ArgMapper.Props.C04
+import ArgMapper.Proofs.ConvertLemmas
 /-!
 # C10 — Convert agrees with calling an identity function of the target type
 # C09 — Redefine is pure planning (model level)
@@ -10,33 +11,33 @@ and with it the transport of C01–C05 to `Convert` — is by construction; what
 what `Convert` does with that call's result.
 -/
 namespace ArgMapper.C10
-open ArgMapper
+open ArgMapper ConvertLemmas
 
 /-- **C10_convert_is_call** — `Convert` returns a value exactly when the call on the identity function
 succeeds, and that value is the call's first output -/
 theorem convert_is_call (c : Ctx) (cgr : CallGraphResult) (ident : FuncDesc) (fuel : Nat) (s0 : CallSt) (v : Nat) :
     convert c cgr ident fuel s0 = .value v ↔
       ∃ r, (callWith { c with beh := withIdentity ident.id c.beh } cgr ident fuel s0).1 = .ok r ∧ r.outs.head? = some v := by
-  sorry
+  exact convert_value_iff c cgr ident fuel s0 v
 
 /-- on failure `Convert` returns no value, only the call's failure -/
 theorem convert_failure (c : Ctx) (cgr : CallGraphResult) (ident : FuncDesc) (fuel : Nat) (s0 : CallSt) (o : Outcome)
     (h : convert c cgr ident fuel s0 = .failed o) :
     o = (callWith { c with beh := withIdentity ident.id c.beh } cgr ident fuel s0).1 := by
-  sorry
+  exact convert_failed c cgr ident fuel s0 o h
 
 /-- the identity function of a non-`error` type has exactly one type-only parameter and one output -/
 theorem identity_shape (id key T : Nat) (hT : T ≠ errorTy) :
     ∃ f, identityDesc id key T = some f ∧ f.input.labels = [⟨"", T, ""⟩] ∧ f.output.labels = [⟨"", T, ""⟩] ∧
       f.hasErr = false := by
-  sorry
+  exact ⟨_, identityDesc_ne id key T hT, rfl, rfl, rfl⟩
 
 /-- for `T = error` the single result *is* the error result: a non-nil converted value makes the call
 (and therefore `Convert`) fail — the corner the property's own wording contains -/
 theorem identity_error_shape (id key : Nat) :
     ∃ f, identityDesc id key errorTy = some f ∧ f.input.labels = [⟨"", errorTy, ""⟩] ∧ f.output.labels = [] ∧
       f.hasErr = true := by
-  sorry
+  exact ⟨_, identityDesc_error id key, rfl, rfl, rfl⟩
 
 /-- **the converted value is the one the call injected** — when the identity function (not memoised,
 executed as the last function of the call) ran, the value `Convert` returns is the provenance id of
@@ -47,7 +48,16 @@ theorem converted_value_is_injected (c : Ctx) (cgr : CallGraphResult) (id key T 
     (hm : mapGet s0.memo ident.id = none) (v : Nat) (h : convert c cgr ident fuel s0 = .value v) :
     ∃ ev, (callWith { c with beh := withIdentity ident.id c.beh } cgr ident fuel s0).2.log.getLast? = some ev ∧
       ev.fid = ident.id ∧ ev.args.map (fun a => (a.id, a.ty)) = [(v, T)] := by
-  sorry
+  rw [identityDesc_ne id key T hT] at hi
+  cases hi
+  obtain ⟨r, hr, hv⟩ := (convert_is_call c cgr _ fuel s0 v).1 h
+  obtain ⟨am, s, args, hg, hbeh, hlog⟩ := callWith_ok_last _ cgr _ fuel s0 rfl r hr
+  obtain ⟨a, rfl, hty⟩ := gatherArgs_single _ _ am T rfl args hg
+  refine ⟨⟨id, countOf s id, [a], (singleVS T).labels, r⟩, by rw [hlog]; simp, rfl, ?_⟩
+  have hv' : v = a.id := by
+    rw [hbeh] at hv
+    simpa [withIdentity] using hv.symm
+  simp [hv', hty]
 
 end ArgMapper.C10
 
@@ -71,6 +81,6 @@ theorem redefine_ignores_original_behaviour (c : Ctx) (outCount : Nat → Nat) (
     (cgr : CallGraphResult) (target : FuncDesc) (fout : Option Filter) (fuel : Nat) (s0 : CallSt) (dup : Bool) :
     redefine { c with beh := zeroBeh outCount } cgr target fout fuel s0 dup =
     redefine { { c with beh := beh' } with beh := zeroBeh outCount } cgr target fout fuel s0 dup := by
-  sorry
+  rfl
 
 end ArgMapper.C09
